@@ -1388,6 +1388,19 @@ class Interp(object):
         selfname = None
         return _Super(f.self_cls, f.locals.get('self'))
 
+    def _note_contract(self, fn):
+        """a call site used the sidecar contract / stub of `fn` instead of its
+        body: recorded for the evidence (assumed unless the same check also
+        proves that body)"""
+        fn = getattr(fn, '__func__', fn)
+        mod = getattr(fn, '__module__', None) or type(fn).__module__
+        name = getattr(fn, '__qualname__', None) or getattr(
+            fn, '__name__', None) or type(fn).__name__
+        hits = getattr(self.ex, 'contracts_hit', None)
+        if hits is None:
+            hits = self.ex.contracts_hit = set()
+        hits.add('%s.%s' % (mod, name))
+
     # ----------------------------------------------------------------- calls
     def call(self, fv, args, kwargs, node=None, frame=None):
         reg = self.registry.get('calls', {})
@@ -1396,12 +1409,14 @@ class Interp(object):
         if key is not None and key in reg:
             if self.ex.trial:
                 raise Undecided('contract call inside a trial')
+            self._note_contract(fv)
             return reg[key](self, args, kwargs)
         if isinstance(fv, BoundMethod):
             key = _ident(fv.func)
             if key is not None and key in reg:
                 if self.ex.trial:
                     raise Undecided('contract call inside a trial')
+                self._note_contract(fv.func)
                 return reg[key](self, [fv.self] + list(args), kwargs)
             f = fv.func
             if isinstance(f, (_ContainerMethod, _StrMethod)):
@@ -2492,6 +2507,10 @@ class Interp(object):
         try:
             ety = ty_of(ev)
         except Undecided:
+            if kind in ('list', 'gen') and not conds and not guards:
+                # structured elements (dicts ...): kept as a lazily evaluated
+                # sequence over the same enumeration
+                return _LazyComp(kind, node, frame, seq)
             return Opaque('havocked local (comprehension of structured '
                           'values)')
         et = to_term(ev, ety)
